@@ -173,7 +173,7 @@ def classify(val):
         return "hex"
     m = re.fullmatch(r"\$1\$([^$\s]+)\$\S+", val)
     if m:
-        return "md5-%d" % len(m.group(1))
+        return "md5-%d" % len(m.group(1)) if len(m.group(1)) <= 8 else "md5-long"
     if re.fullmatch(r"\$1\$\S+\$\S+", val):
         return "md5-?"
     if re.fullmatch(r"\$6\$\S+", val):
@@ -200,6 +200,9 @@ def gen_secret(r, cls, length=None, like=None):
         salt = like[:2] if like else "%02d" % r.randint(0, 15)
         body = "".join(r.choice("0123456789ABCDEF") for _ in range(n - 3)) + r.choice("ABCDEF")
         return salt + body
+    if cls == "md5-long":   # over-long salt field: today the file fails on it (C14's subject); only used where that is harmless
+        sl = (len(like.split("$")[2]) if like else r.randint(9, 12))
+        return "$1$" + "".join(r.choice(B64[2:]) for _ in range(sl)) + "$" + "".join(r.choice(B64) for _ in range(22))
     if cls.startswith("md5"):
         sl = int(cls.split("-")[1]) if "-" in cls else r.randint(1, 8)
         return "$1$" + "".join(r.choice(B64) for _ in range(sl)) + "$" + "".join(r.choice(B64) for _ in range(22))
@@ -392,15 +395,25 @@ def render_line(line, world="a", secrets=None):
 
 
 def render_file(lines, world="a", secrets=None):
-    """bytes of a file; `bad` segments carry raw bytes as latin-1 text."""
+    """bytes of a file; `bad` segments carry raw bytes as latin-1 text.
+
+    A bare CR terminator directly followed by an empty line would read as one CRLF: it is written as
+    CRLF instead, so generated line n is always text line n."""
     out = bytearray()
+    bodies = []
     for ln in lines:
+        b = bytearray()
         for s in ln["segs"]:
             if s[0] == "bad":
-                out += s[1].encode("latin-1")
+                b += s[1].encode("latin-1")
             else:
-                out += render_seg(s, world, secrets or {}).encode("utf-8")
-        out += ln.get("eol", "\n").encode("utf-8")
+                b += render_seg(s, world, secrets or {}).encode("utf-8")
+        bodies.append(bytes(b))
+    for i, ln in enumerate(lines):
+        eol = ln.get("eol", "\n")
+        if eol == "\r" and i + 1 < len(lines) and bodies[i + 1] == b"":
+            eol = "\r\n"
+        out += bodies[i] + eol.encode("utf-8")
     return bytes(out)
 
 
